@@ -339,7 +339,10 @@ class CompositeType(SerializableType):
                 return c.value
 
         if name.native_value == "_extent_":  # Experimental non-standard extension
-            return _expression.Rational(self.extent)
+            try:
+                return _expression.Rational(self.extent)
+            except TypeError:  # Service types are not serializable.
+                pass
 
         return super()._attribute(name)  # Hand over up the inheritance chain, this is important
 
@@ -710,6 +713,9 @@ class ServiceType(CompositeType):
     @property
     def bit_length_set(self) -> BitLengthSet:
         raise TypeError("Service types are not directly serializable. Use either request or response.")
+
+    def _check_aggregation(self, aggregate: "SerializableType") -> typing.Optional[AggregationFailure]:
+        return AggregationFailure(self, aggregate, "A service type cannot be nested into another type")
 
     @property
     def request_type(self) -> CompositeType:
